@@ -81,12 +81,11 @@ func (x *Exec) intrinsic(fr *Frame, st *State, ins ssa.Instruction, cc *ssa.Call
 		p := fn.Params[0]
 		bs := vc.sortOf(p.Type())
 		bv := Term{boundVarName(fn, p), bs}
-		vc.noName++
+		vc.openBinder(bv.S)
 		s2 := st.clone()
 		s2.reach = tTrue
 		vals := x.inlineRun(fr, s2, fn, clo, []Term{bv}, ins.Pos())
-		vc.noName--
-		body := vals[0]
+		body := vc.closeBinder(vals[0])
 		// integer-typed bound variables range over their Go type
 		var guard Term = tTrue
 		if b, ok := underlying(p.Type()).(*types.Basic); ok && b.Info()&types.IsInteger != 0 {
@@ -101,6 +100,9 @@ func (x *Exec) intrinsic(fr *Frame, st *State, ins ssa.Instruction, cc *ssa.Call
 			body = implies(guard, body)
 		}
 		fr.regs[res] = Term{fmt.Sprintf("(%s ((%s %s)) %s)", q, bv.S, bs, body.S), SBool}
+	case "vs_same":
+		a, b := x.val(fr, st, cc.Args[0]), x.val(fr, st, cc.Args[1])
+		fr.regs[res] = and(eq(sArr(a), sArr(b)), eq(sOff(a), sOff(b)), eq(sLen(a), sLen(b)))
 	case "vs_fresh":
 		v := x.val(fr, st, cc.Args[0])
 		old := x.specOld(fr)
@@ -352,13 +354,20 @@ func (x *Exec) appendOp(fr *Frame, st *State, cc *ssa.CallCommon) Term {
 	if vc.noName > 0 {
 		panic(engErr("append inside quantifier body"))
 	}
+	const unroll = 8
 	sl := vc.name("al", sLen(s))
 	oldArr := vc.name("oa", sel(x.heap(st, h), sArr(s), as))
-	// base: the first len(s) elements of s, re-based at offset 0
-	base := vc.fresh("abase", as)
-	off := sOff(s)
-	vc.assert(implies(eq(off, intLit(0)), eq(base, oldArr)))
-	vc.assert(Term{fmt.Sprintf("(forall ((i Int)) (! (=> (and (<= 0 i) (< i %s)) (= (select %s i) (select %s (+ %s i)))) :pattern ((select %s i))))", sl.S, base.S, oldArr.S, off.S, base.S), SBool})
+	// base: the first len(s) elements of s, re-based at offset 0. With offset 0 it is the
+	// old array itself (cells beyond len(s) are then unspecified rather than zero: A3).
+	off := vc.name("aoff", sOff(s))
+	var base Term
+	if off.S == "0" {
+		base = oldArr
+	} else {
+		bf := vc.fresh("abase", as)
+		vc.assert(implies(not(eq(off, intLit(0))), Term{fmt.Sprintf("(forall ((i Int)) (! (=> (and (<= 0 i) (< i %s)) (= (select %s i) (select %s (+ %s i)))) :pattern ((select %s i))))", sl.S, bf.S, oldArr.S, off.S, bf.S), SBool}))
+		base = vc.name("abase", ite(eq(off, intLit(0)), oldArr, bf))
+	}
 	var newArr Term
 	var addLen Term
 	// second operand
@@ -372,23 +381,27 @@ func (x *Exec) appendOp(fr *Frame, st *State, cc *ssa.CallCommon) Term {
 		newArr = na
 	} else {
 		t := x.val(fr, st, cc.Args[1])
-		if n, ok := x.constLen(fr, cc.Args[1]); ok && n <= 8 {
+		tArr := vc.name("ta", sel(x.heap(st, h), sArr(t), as))
+		toff := vc.name("toff", sOff(t))
+		if n, ok := x.constLen(fr, cc.Args[1]); ok && n <= unroll {
 			addLen = intLit(n)
-			tArr := vc.name("ta", sel(x.heap(st, h), sArr(t), as))
 			newArr = base
 			for j := int64(0); j < n; j++ {
-				newArr = store(newArr, add(sl, intLit(j)), sel(tArr, add(sOff(t), intLit(j)), es))
+				newArr = store(newArr, add(sl, intLit(j)), sel(tArr, add(toff, intLit(j)), es))
 			}
 			newArr = vc.name("na", newArr)
 		} else {
 			addLen = vc.name("tl", sLen(t))
-			tArr := vc.name("ta", sel(x.heap(st, h), sArr(t), as))
+			// explicit copy of the first `unroll` elements (cells beyond the new length are unspecified)
+			ex := base
+			for j := int64(0); j < unroll; j++ {
+				ex = vc.name("na", store(ex, add(sl, intLit(j)), sel(tArr, add(toff, intLit(j)), es)))
+			}
 			na := vc.fresh("aarr", as)
-			vc.assert(Term{fmt.Sprintf("(forall ((i Int)) (! (=> (and (<= 0 i) (< i %s)) (= (select %s i) (select %s i))) :pattern ((select %s i))))", sl.S, na.S, base.S, na.S), SBool})
-			vc.assert(Term{fmt.Sprintf("(forall ((j Int)) (! (=> (and (<= 0 j) (< j %s)) (= (select %s (+ %s j)) (select %s (+ %s j)))) :pattern ((select %s (+ %s j)))))", addLen.S, na.S, sl.S, tArr.S, sOff(t).S, tArr.S, sOff(t).S), SBool})
-			// instantiation helper: the element at index k>=len(s) of the result
-			vc.assert(Term{fmt.Sprintf("(forall ((k Int)) (! (=> (and (<= %s k) (< k (+ %s %s))) (= (select %s k) (select %s (+ %s (- k %s))))) :pattern ((select %s k))))", sl.S, sl.S, addLen.S, na.S, tArr.S, sOff(t).S, sl.S, na.S), SBool})
-			newArr = na
+			big := lt(intLit(unroll), addLen)
+			vc.assert(implies(big, Term{fmt.Sprintf("(forall ((i Int)) (! (=> (and (<= 0 i) (< i %s)) (= (select %s i) (select %s i))) :pattern ((select %s i))))", sl.S, na.S, base.S, na.S), SBool}))
+			vc.assert(implies(big, Term{fmt.Sprintf("(forall ((k Int)) (! (=> (and (<= %s k) (< k (+ %s %s))) (= (select %s k) (select %s (+ %s (- k %s))))) :pattern ((select %s k))))", sl.S, sl.S, addLen.S, na.S, tArr.S, toff.S, sl.S, na.S), SBool}))
+			newArr = vc.name("na", ite(big, na, ex))
 		}
 	}
 	nl := vc.name("nl", add(sl, addLen))
